@@ -109,6 +109,12 @@ ScenC20(u) == {Run(<<d1>>, None, pre, app, via, FALSE) : d1 \in MdDocsOf(1), pre
            \cup {Run(<<Md(MkTests(1, <<n1>>)), [d2 EXCEPT !.fault = f]>>, None, <<>>, <<>>, "cli", FALSE) :
                      d2 \in {Md(MkTests(2, <<"pass">>))}, f \in {"unreadable", "unparsable"}, n1 \in {"pass", "failout"}}
            \cup {Run(<<Md(MkTests(1, <<n1>>))>>, None, <<>>, <<>>, "cli", TRUE) : n1 \in {"pass", "failout"}}
+           \* a given path that does not exist (exit 1, nothing runs); a given file that is no test document by its name (ignored)
+           \cup {Run(<<[d1 EXCEPT !.fault = f], Md(MkTests(2, <<n2>>))>>, None, <<>>, <<>>, "cli", FALSE) :
+                     d1 \in {Md(MkTests(1, <<"failout">>))}, f \in {"missing", "nomatch"}, n2 \in {"pass", "failout"}}
+           \cup {Run(<<Md(MkTests(1, <<n1>>)), [d2 EXCEPT !.fault = f]>>, None, <<>>, <<>>, "cli", FALSE) :
+                     d2 \in {Md(MkTests(2, <<"failout">>)), Cram(MkCram(2, <<"failout">>))}, f \in {"missing", "nomatch"}, n1 \in {"pass", "failout"}}
+           \cup {Run(<<[d1 EXCEPT !.fault = "nomatch"]>>, None, <<>>, <<>>, "cli", FALSE) : d1 \in {Md(MkTests(1, <<"failout">>))}}
 
 \* prepended / appended test cases together with a test case that runs into its limit (results must stay aligned)
 SharedAndTimeout(u) ==
